@@ -3,6 +3,7 @@ package c05
 import (
 	"strings"
 
+	"verif/harness/pooladapt"
 	"verif/report"
 )
 
@@ -18,6 +19,10 @@ func classify(v *report.Violation) {
 		v.Class = "C05-epoch-generation-wrap"
 	case epochImpl && conserv && has("[cause=epoch-stamp-within-grace ") && strings.Contains(v.Part, "grace=") && !strings.Contains(v.Part, "grace=1"):
 		v.Class = "C05-epoch-grace2-stamp-still-active"
+	// PoolAllocator is not atomic (see C01-poolalloc-allocate-release-race): the orphan store record makes the
+	// store refuse the prefix to everybody, i.e. the unit is unobtainable.
+	case strings.HasPrefix(v.Part, "sched:allocator.PoolAllocator[") && v.Kind == "leak" && v.Site == "Allocate" && pooladapt.AllocVsReleaseSameSub(v.Trace):
+		v.Class = "C05-poolalloc-allocate-release-race"
 	case strings.HasPrefix(v.Part, "allocator.IPAllocator(huge)[") && v.Kind == "exhaustion" && v.Site == "Allocate" && has("[cause=unit-count-overflows-uint64]"):
 		v.Class = "C05-bitmap-2pow64-units"
 	}
